@@ -92,11 +92,11 @@ var c06Values = [dNumDims][]string{
 	dVer:    {"v2", "v1-absent", "v3"},
 	dN:      {"3", "0", "1", "2", "30", "0-present-empty"},
 	dNU:     {"present", "absent"},
-	dExt:    {"aki+number", "absent", "number", "aki+number+unknown-noncritical", "aki+number+unknown-critical", "aki+number+delta-critical"},
+	dExt:    {"aki+number", "absent", "number", "aki+number+unknown-noncritical", "aki+number+unknown-critical", "aki+number+delta-critical", "aki+number+idp-critical", "aki+number+ian-critical", "aki+number+freshest-critical", "aki+number+aia-critical"},
 	dEnc:    {"DER", "PEM-LF", "PEM-CRLF"},
 	dDate:   {"UTCTime", "GeneralizedTime"},
 	dSerial: {"small", "1byte", "2byte", "3byte", "8byte", "9byte-topbit", "16byte", "19byte", "20byte", "zero", "2^159", "20byte-topbit"},
-	dEExt:   {"none", "reason", "reason+invalidityDate", "opaque-3KiB", "opaque-70KiB"},
+	dEExt:   {"none", "reason", "reason+invalidityDate", "opaque-3KiB", "opaque-70KiB", "mixed"},
 	dIssuer: {"simple", "1rdn", "6rdn", "multivalued-rdn", "utf8-nonascii", "300byte-value"},
 	dAlg:    {"ecdsa-sha256", "sha1-rsa", "sha224-rsa", "sha256-rsa", "sha384-rsa", "sha512-rsa", "ecdsa-sha1", "ecdsa-sha224", "ecdsa-sha384", "ecdsa-sha512"},
 	dPad:    {"0"}, // numeric, free
@@ -264,6 +264,14 @@ func (c c06Case) build() (doc []byte, der []byte, wellFormed bool, mustReject bo
 			e.Exts = []pkix.Extension{world.UnknownExt(false, 3000)}
 		case "opaque-70KiB":
 			e.Exts = []pkix.Extension{world.UnknownExt(false, 70*1024)}
+		case "mixed":
+			// entries with and without extensions alternate: nothing of one entry may show up in the next
+			switch i % 4 {
+			case 0:
+				e.Exts = []pkix.Extension{world.ReasonExt(1), world.InvalidityDateExt(vsched.Epoch.Add(-100 * time.Hour))}
+			case 2:
+				e.Exts = []pkix.Extension{world.ReasonExt(4)}
+			}
 		}
 		s.Entries = append(s.Entries, e)
 	}
@@ -281,6 +289,10 @@ func (c c06Case) build() (doc []byte, der []byte, wellFormed bool, mustReject bo
 		mustReject = true
 	case "aki+number+delta-critical":
 		s.Exts = []pkix.Extension{aki, world.CRLNumberExt(7), world.DeltaCRLIndicatorExt()}
+		mustReject = true
+	case "aki+number+idp-critical", "aki+number+ian-critical", "aki+number+freshest-critical", "aki+number+aia-critical":
+		n := c06Values[dExt][c[dExt]]
+		s.Exts = []pkix.Extension{aki, world.CRLNumberExt(7), world.StdCriticalExt(strings.TrimSuffix(strings.TrimPrefix(n, "aki+number+"), "-critical"))}
 		mustReject = true
 	}
 	if s.Version == 0 && len(s.Exts) > 0 {
